@@ -1,7 +1,7 @@
 /- Shared line-protocol driver code of drv_c11 / drv_c13: reads the `M (model ...)` lines printed by harness/c11_effects.hpp
    (the *real* function bodies and context expressions of a parsed document), runs the model of Model/Effect.lean with the
    generated configuration and prints the model's answers in the format of the harness' own `FI` / `X` lines. -/
-import UtapModel.Model.Effect
+import UtapModel.Model.EffectSpec
 import UtapModel.Gen.EffectGen
 namespace UtapModel.EffectDrv
 open UtapModel UtapModel.Effect UtapModel.EffectGen
@@ -97,9 +97,12 @@ def showIds (xs : List Nat) : String := ",".intercalate ((sortDedup xs).map toSt
 
 def showB (b : Bool) : String := if b then "1" else "0"
 
+def natsOf (xs : List SExp) : List Nat :=
+  xs.filterMap (fun x => match x with | .atom a => a.toNat? | _ => none)
+
 def runModel (line : String) : List String :=
   match parseSExp line with
-  | some (.list [.atom "model", .list (.atom "syms" :: syms), .list (.atom "funs" :: funs), .list (.atom "ctxs" :: ctxs)]) =>
+  | some (.list (.atom "model" :: .list (.atom "syms" :: syms) :: .list (.atom "funs" :: funs) :: .list (.atom "ctxs" :: ctxs) :: more)) =>
     let rows := syms.filterMap toSym
     let P := funs.filterMap toFun
     let env := analyse genCfg P
@@ -113,7 +116,29 @@ def runModel (line : String) : List String :=
     let fs := P.map (fun fd => match env.find fd.name with
       | some fi => s!"FI {fd.name} changes=[{showIds fi.changes}] depends=[{showIds fi.depends}]"
       | none => s!"FI {fd.name} missing")
-    [s!"DBU {showB (declaredBeforeUse P)} funs={P.length} ctxs={xs.length}"] ++
+    -- restricted sets of the templates: closure of the array-size bounds over the variables' initialisers (builder view)
+    let cexprs : List (Nat × Expr) := ctxs.filterMap (fun c => match c with
+      | .list [.atom "ctx", .atom n, e] => some (n.toNat?.getD 0, toExpr e)
+      | _ => none)
+    let exprAt (n : Nat) : Expr := ((cexprs.find? (fun p => p.1 == n)).map (·.2)).getD Expr.nil
+    let vars : List VarDecl := match more with
+      | .list (.atom "vars" :: vs) :: _ => vs.filterMap (fun v => match v with
+          | .list [.atom "v", .atom sy, .atom ci] => some { sym := symOf sy, init := exprAt (ci.toNat?.getD 0) }
+          | _ => none)
+      | _ => []
+    let fuel := 4 * rows.length + 64
+    let rs : List String := match more with
+      | _ :: .list (.atom "tmpls" :: ts) :: _ => ts.filterMap (fun t => match t with
+          | .list (.atom "t" :: .atom name :: seeds) =>
+            let r := (natsOf seeds).foldl (fun acc n => match acc with
+              | some a => collectDependencies genCfg vars fuel a (exprAt n)
+              | none => none) (some [])
+            match r with
+            | some a => some s!"RS {name} restricted=[{showIds a}]"
+            | none => some s!"RS {name} out-of-fuel"
+          | _ => none)
+      | _ => []
+    [s!"DBU {showB (declaredBeforeUse P)} funs={P.length} ctxs={xs.length} extfree={showB (bodiesExtFree genCfg P)}", "EXCEPTIONS " ++ " ".intercalate (c13Exceptions genCfg)] ++ rs ++
       bad.map (fun r => s!"CTCSET-MISMATCH #{r.id} class={r.cls} real={showB r.realCtc}") ++ xs ++ fs ++ ["ENDM"]
   | _ => ["BAD-MODEL-LINE", "ENDM"]
 
